@@ -5,25 +5,36 @@ Keys: `u` = `1,2,3` (`_` empty), `d` = `1,2>3`; raw keys are canonicalised (sort
 Metadata: `a:v,a:v` or `-`.  Optional numbers / lists: `n` = None.
 
   K new s w | K addnode s n md | K addedge s key w|n md | K rmedge s key | K setw s key w
-  K setnm s n md | K setem s key md | K attrn s n a v | K attre s key a v        -> ok | rej
+  K setnm s n md | K setem s key md | K attrn s n a v | K attre s key a v
+  K setim s key n md | K attri s key n a v   (key as given: `u` stores under the unsorted tuple)
+  K addempty s name md | K sethm s md | K attrh s a v                            -> ok | rej
   K copy i j | K induced i j nodes | K lcc i j comp | K byorders i j orders|n sizes|n keep
   K edgessub i j order|n size|n upto keep                                        -> ok | rej
-  K q s    -> `w|n:md;n:md|key=w=md;...`  (md printed `a:v,a:v`, `-` when empty; `~` = empty list) -/
+  K q s    -> `w|n:md;n:md|key=w=md;...|key@n=md;...|name=md;...|md`  (nodes | hyperedges | incidence metadata |
+              empty edges | hypergraph metadata; md printed `a:v,a:v`, `-` when empty; `~` = empty list) -/
 open Wire C05
 
 class WireKey (κ : Type) where
   parse : String → Option κ
   render : κ → String
+  /-- the form of a raw key under which incidence metadata is stored (`IncKey`) -/
+  store : String → Option (List Nat × List Nat)
+  renderStore : List Nat × List Nat → String
 
-instance : WireKey UKey := ⟨fun s => (natsInner? s).map canonU, showList "," "_" toString⟩
-instance : WireKey DKey :=
-  ⟨fun s => match s.splitOn ">" with
-     | [a, b] => do
-        let x ← natsInner? a
-        let y ← natsInner? b
-        some (canonD (x, y))
-     | _ => none,
-   fun k => showList "," "_" toString k.1 ++ ">" ++ showList "," "_" toString k.2⟩
+def dkey? (s : String) : Option DKey :=
+  match s.splitOn ">" with
+  | [a, b] => do
+    let x ← natsInner? a
+    let y ← natsInner? b
+    some (canonD (x, y))
+  | _ => none
+
+def showD (k : List Nat × List Nat) : String := showList "," "_" toString k.1 ++ ">" ++ showList "," "_" toString k.2
+
+instance : WireKey UKey :=
+  ⟨fun s => (natsInner? s).map canonU, showList "," "_" toString,
+   fun s => (natsInner? s).map (fun raw => (raw, [])), fun k => showList "," "_" toString k.1⟩
+instance : WireKey DKey := ⟨dkey?, showD, dkey?, showD⟩
 
 def meta? (s : String) : Option Meta :=
   listOf? "," "-" (fun t => match t.splitOn ":" with
@@ -47,7 +58,11 @@ def digest (c : Content κ) : String :=
   showBool c.weighted ++ "|" ++
   showList ";" "~" (fun (p : Node × Meta) => toString p.1 ++ ":" ++ showMeta p.2) c.nodes ++ "|" ++
   showList ";" "~" (fun (p : κ × (W × Meta)) =>
-    WireKey.render p.1 ++ "=" ++ toString p.2.1 ++ "=" ++ showMeta p.2.2) c.edges
+    WireKey.render p.1 ++ "=" ++ toString p.2.1 ++ "=" ++ showMeta p.2.2) c.edges ++ "|" ++
+  showList ";" "~" (fun (p : IncKey × Meta) =>
+    WireKey.renderStore κ p.1.1 ++ "@" ++ toString p.1.2 ++ "=" ++ showMeta p.2) c.inc ++ "|" ++
+  showList ";" "~" (fun (p : Nat × Meta) => toString p.1 ++ "=" ++ showMeta p.2) c.emptyEdges ++ "|" ++
+  showMeta c.hmeta
 
 /-- a mutation through the model's `mutateSlot`; the answer says whether the call was accepted -/
 def mutateOp (sl : Slots κ) (s : String) (op : Op κ) : Slots κ × String :=
@@ -108,6 +123,30 @@ def stepK (sl : Slots κ) : List String → Slots κ × String
       let a ← a.toNat?
       let v ← v.toNat?
       some (mutateOp sl s (.setEdgeAttr k a v))
+  | ["setim", s, k, n, md] => orBad sl do
+      let kk ← (WireKey.parse k : Option κ)
+      let st ← WireKey.store κ k
+      let n ← n.toNat?
+      let md ← meta? md
+      some (mutateOp sl s (.setIncMeta kk st n md))
+  | ["attri", s, k, n, a, v] => orBad sl do
+      let kk ← (WireKey.parse k : Option κ)
+      let st ← WireKey.store κ k
+      let n ← n.toNat?
+      let a ← a.toNat?
+      let v ← v.toNat?
+      some (mutateOp sl s (.setIncAttr kk st n a v))
+  | ["addempty", s, name, md] => orBad sl do
+      let name ← name.toNat?
+      let md ← meta? md
+      some (mutateOp sl s (.addEmptyEdge name md))
+  | ["sethm", s, md] => orBad sl do
+      let md ← meta? md
+      some (mutateOp sl s (.setHyperMeta md))
+  | ["attrh", s, a, v] => orBad sl do
+      let a ← a.toNat?
+      let v ← v.toNat?
+      some (mutateOp sl s (.setHyperAttr a v))
   | ["copy", i, j] => extract sl i j (fun c => some (copy c))
   | ["induced", i, j, ns] => orBad sl do
       let ns ← nats? ns
